@@ -217,8 +217,12 @@ Inductive qkind := QFifo | QStack | QDeque | QPrio.
     queue as its dummy node, the disposer is called for the *previous* dummy, i.e. one dequeue late; the
     destructor disposes the last one.  [QDClear]: the disposer is called only for items removed by clear()
     (and by the destructor), never for items returned by pop (TreiberStack, FCQueue/FCStack, SegmentedQueue,
-    VyukovMPMCCycleQueue intrusive forms). *)
-Inductive qdpolicy := QDNone | QDLag | QDClear.
+    intrusive forms).  [QDManual]: as [QDClear] for clear(), but the destructor does not dispose what is still
+    inside (intrusive FCQueue / FCStack with clear( true ), VyukovMPMCCycleQueue).  [QDTotal]: BasketQueue
+    unlinks dequeued nodes lazily in batches, so the instant of a disposer call is not specified; what is
+    specified (and compared) is the total: by the time the queue is destroyed every item that was ever
+    enqueued has been disposed exactly once.  Per-operation counts are reported as 0. *)
+Inductive qdpolicy := QDNone | QDLag | QDClear | QDManual | QDTotal.
 
 Record qcfg := mkqcfg {
   qc_kind : qkind;
@@ -242,10 +246,11 @@ Inductive qres :=
 
 Record qout := mkqout { qo_res : qres; qo_disp : nat }.
 
-Record qst := mkqst { q_items : list Z; q_pending : bool }.
-(* q_pending: QDLag only - an item has been dequeued and not yet disposed (it is the dummy node) *)
+Record qst := mkqst { q_items : list Z; q_pending : bool; q_npush : nat }.
+(* q_pending: QDLag only - an item has been dequeued and not yet disposed (it is the dummy node);
+   q_npush: number of successful pushes so far *)
 
-Definition qinit : qst := mkqst [] false.
+Definition qinit : qst := mkqst [] false 0.
 
 Definition b2n (b : bool) : nat := if b then 1%nat else 0%nat.
 
@@ -276,25 +281,26 @@ Definition popped_some (r : res) : bool := match r with RVal (Some _) => true | 
 Definition qstep (c : qcfg) (s : qst) (o : aop) : qst * qout :=
   let l := q_items s in
   match o with
-  | APush x => let (l', r) := core_push c l x in (mkqst l' (q_pending s), mkqout (QR r) 0)
+  | APush x => let (l', r) := core_push c l x in
+               (mkqst l' (q_pending s) (q_npush s + match r with RBool true => 1 | _ => 0 end), mkqout (QR r) 0)
   | APop =>
       let (l', r) := core_pop c l in
       if popped_some r then
         match qc_disp c with
-        | QDLag => (mkqst l' true, mkqout (QR r) (b2n (q_pending s)))
-        | _ => (mkqst l' (q_pending s), mkqout (QR r) 0)
+        | QDLag => (mkqst l' true (q_npush s), mkqout (QR r) (b2n (q_pending s)))
+        | _ => (mkqst l' (q_pending s) (q_npush s), mkqout (QR r) 0)
         end
-      else (mkqst l' (q_pending s), mkqout (QR r) 0)
+      else (mkqst l' (q_pending s) (q_npush s), mkqout (QR r) 0)
   | APushFront x =>
       match qc_kind c with
       | QDeque => if has_room c l then let (l', r) := deque_step l (PushFront x) in
-                                        (mkqst l' (q_pending s), mkqout (QR r) 0)
+                                        (mkqst l' (q_pending s) (S (q_npush s)), mkqout (QR r) 0)
                   else (s, mkqout (QR (RBool false)) 0)
       | _ => (s, mkqout QNa 0)
       end
   | APopBack =>
       match qc_kind c with
-      | QDeque => let (l', r) := deque_step l PopBack in (mkqst l' (q_pending s), mkqout (QR r) 0)
+      | QDeque => let (l', r) := deque_step l PopBack in (mkqst l' (q_pending s) (q_npush s), mkqout (QR r) 0)
       | _ => (s, mkqout QNa 0)
       end
   | ASize => (s, mkqout (QNat (if qc_counted c then length l else 0%nat)) 0)
@@ -302,12 +308,12 @@ Definition qstep (c : qcfg) (s : qst) (o : aop) : qst * qout :=
                                      else match l with [] => true | _ => false end))) 0)
   | AClear =>
       match qc_disp c with
-      | QDNone => (mkqst [] (q_pending s), mkqout (QR RUnit) 0)
-      | QDClear => (mkqst [] (q_pending s), mkqout (QR RUnit) (length l))
+      | QDNone | QDTotal => (mkqst [] (q_pending s) (q_npush s), mkqout (QR RUnit) 0)
+      | QDClear | QDManual => (mkqst [] (q_pending s) (q_npush s), mkqout (QR RUnit) (length l))
       | QDLag =>   (* clear() = repeated dequeue: every dequeue but the first disposes its predecessor *)
           match l with
           | [] => (s, mkqout (QR RUnit) 0)
-          | _ :: t => (mkqst [] true, mkqout (QR RUnit) (length t + b2n (q_pending s)))
+          | _ :: t => (mkqst [] true (q_npush s), mkqout (QR RUnit) (length t + b2n (q_pending s)))
           end
       end
   end.
@@ -322,9 +328,10 @@ Fixpoint qrun (c : qcfg) (s : qst) (ops : list aop) : qst * list qout :=
 (** disposer calls made by the destructor *)
 Definition qfinal (c : qcfg) (s : qst) : nat :=
   match qc_disp c with
-  | QDNone => 0%nat
+  | QDNone | QDManual => 0%nat
   | QDClear => length (q_items s)
   | QDLag => (length (q_items s) + b2n (q_pending s))%nat
+  | QDTotal => q_npush s
   end.
 
 Definition qrun_case (c : qcfg) (ops : list aop) : list qout * nat :=
